@@ -555,6 +555,15 @@ def slice_faces_plane(
     dist = np.divide(num, denom)
     # intersection points for each segment
     int_points = np.einsum("ij,ijk->ijk", dist, d) + o
+    # a vertex classified as on the plane (within `tol.merge`) IS the
+    # intersection of the edges that end in it: intersecting the line
+    # through such an edge instead lands next to the vertex or, if both
+    # ends are on the same side of the plane, beyond the end of the edge
+    cut_signs = signs[onedge]
+    on_start = cut_signs == 0
+    on_end = np.roll(on_start, -1, axis=1)
+    int_points[on_end] = np.roll(o, -1, axis=1)[on_end]
+    int_points[on_start] = o[on_start]
 
     # Initialize the array of new vertices with the current vertices
     new_vertices = vertices
